@@ -464,12 +464,12 @@ guess.  The paths of the three handlers are regenerated from the source (`Genera
 (room API checksum, internal token, resume id) consults the throttler, for its own kind of attempt, before
 anything that looks at the credential; on `ErrBruteforceDetected` it answers 429 / `too_many_requests` and
 does nothing else; it calls the returned function once, before answering, on exactly the paths that reject
-the credential.  And nobody else in hub.go / backend_server.go consults the throttler. -/
+the credential.  And nothing else in hub.go / backend_server.go consults the throttler (no function outside
+the three handlers and the helpers whose paths are part of theirs). -/
 theorem C17_site_facts :
     sites.map (fun sp => siteCfg sp.1 sp.2) = [SiteCfg.guarded, SiteCfg.guarded, SiteCfg.guarded] ∧
     sites.map (fun sp => refusalOf sp.2) = ["http:429", "error:too_many_requests", "error:too_many_requests"] ∧
-    SigModel.Generated.ThrottleSites.checkCallers
-      = ["BackendServer.roomHandler", "Hub.processHello", "Hub.processHelloInternal"] := by
+    SigModel.Generated.ThrottleSites.strayCheckCallers = [] := by
   decide
 
 theorem C17_site_cfg (a : Action) (sp : SiteSpec × List SitePath) (h : siteOf a = some sp) :
